@@ -85,6 +85,16 @@ def catalogue(big=False):
                                {"a": ref("STEP", "y"), "b": ref("STEP_TWO_B", "y"), "c": ref("SUB", "y"), "d": ref("SUBX", "y"),
                                 "e": ref("SPL", "ys"), "f": ref("SPL2", "ys")})], "TOP", {"x": 1, "xs": [1, 2]}))
 
+    # 4a". stages called with `local = true` (they run on the submit host in cluster mode and die
+    #      with mrp), one of them splitting, next to ordinary ones
+    P.append(program("local_stages", [], [S_echo("A"), S_echo("L"), S_split("LS"), S_echo("B")],
+                     [pipeline("TOP", "int x, int[] xs", "int a, int b, int[] c",
+                               [call("A", binds={"x": self_("x")}),
+                                call("L", binds={"x": ref("A", "y")}, local=True),
+                                call("LS", binds={"xs": self_("xs")}, local=True),
+                                call("B", binds={"x": self_("x")})],
+                               {"a": ref("L", "y"), "b": ref("B", "y"), "c": ref("LS", "ys")})], "TOP", {"x": 1, "xs": [1, 2]}))
+
     # 4b. a mapped stage (static and run-time forks) next to a stage that does not depend on it
     P.append(program("map_and_indep", [], [S_const("G", "int[] ys", {"ys": [4, 5, 6]}), S_echo("A"), S_echo("D"), S_echo("B")],
                      [pipeline("TOP", "int[] xs, int x", "int[] o, int[] p, int q",
